@@ -745,6 +745,7 @@ func (diff *V2FileContractElementDiff) UnmarshalJSON(b []byte) error {
 	diff.V2FileContractElement = tmp.V2FileContractElement
 	diff.Created = tmp.Created
 	diff.Revision = tmp.Revision
+	diff.Resolution = nil
 	diff.V2FileContractElement.Move()
 
 	if len(tmp.Resolution) == 0 {
